@@ -294,7 +294,12 @@ class C14(Harness):
                 r = t.fit(X).transform(X)
             except ValueError:
                 return {"rejected": True}
-            return {"rejected": False, "cells": cells_of(r)}
+            o = {"rejected": False, "cells": cells_of(r)}
+            if inp["lower"] < 0 and not inp["upper"]:
+                # the bound found at fit (shortest training series) also applies to a later panel of longer series
+                X2, _ = self._nested([[list(col) + [col[-1]] for col in inst] for inst in inp["x"]])
+                o["later_panel"] = cells_of(t.transform(X2))
+            return o
         if k == "paa":
             PAA = W.load(PANEL + ".dictionary_based._paa").PAA
             r = PAA(num_intervals=inp["m"]).fit(X).transform(X)
@@ -495,6 +500,13 @@ class C14(Harness):
                     P.check("requested-length", len(c) == len(idxs))
                     for t, src in zip(range(len(c)), idxs):
                         P.eq("truncation", c[t], x[i][j][src])
+            if "later_panel" in out:
+                for i in range(ni):
+                    for j in range(nc):
+                        c = out["later_panel"][i][j]
+                        P.check("requested-length", len(c) == len(idxs), {"what": "a later panel of longer series, bound fitted before", "got": len(c), "want": len(idxs)})
+                        for t, src in zip(range(len(c)), idxs):
+                            P.eq("truncation", c[t], x[i][j][src], {"what": "later panel"})
             return
         if k == "interpolator":
             m = inp["length"]
